@@ -56,4 +56,6 @@ def main(args, seed):
             if args.cell and args.cell not in f"{fn}/k{k}":
                 continue
             jobs.append((path, fn, line, timeout))
-    return xhdriver.run_all(PROPERTY, jobs, args.j, META, args.tier, seed, known=load_known())
+    write = not args.cell and not args.no_evidence
+    r = xhdriver.run_all(PROPERTY, jobs, args.j, META, args.tier, seed, known=load_known(), write=write)
+    return r if write else r[0]
